@@ -626,8 +626,8 @@ def xYACom : Name := [120, 46, 121, 46, 97, 46, 99, 111, 109]
 def aBCom : Name := [97, 46, 98, 46, 99, 111, 109]
 def xaBCom : Name := [120, 97, 46, 98, 46, 99, 111, 109]
 def zABCom : Name := [122, 46, 97, 46, 98, 46, 99, 111, 109]
-def envC (now : Int) : Env := ⟨[], [], true, now, fun _ => true, true, 0⟩
-def envU (u : Hash) (now : Int) : Env := ⟨[u], [], false, now, fun _ => true, true, 0⟩
+def envC (now : Int) : Env := ⟨[], [], 1, 1, now, fun _ => true, true, 0⟩
+def envU (u : Hash) (now : Int) : Env := ⟨[u], [], 0, 1, now, fun _ => true, true, 0⟩
 def mail : Bytes := [101, 64, 120]
 def one : Bytes := [111, 110, 101]
 def two : Bytes := [116, 119, 111]
